@@ -1,4 +1,3 @@
 /* hdr-rev 8e66856859bc (hash of harness/C11/*.h; keeps the driver's compile cache in step with the headers) */
-#define FUNC beltBDEDecr
-#define FNAME "beltBDEDecr"
-#include "cipher6.h"
+#define CHE
+#include "dwp.h"
